@@ -506,6 +506,7 @@ pub fn check(prog: &Program, ex: &Execution, cfg: &OracleCfg) -> OracleOut {
             }
         }
     }
+    let ent_of_id: HashMap<u64, Ent> = id_of.iter().map(|(e, i)| (*i, *e)).collect();
     let resolve = |p: &PRef| -> Option<u64> {
         match p {
             PRef::Remote(x) => Some(*x),
@@ -655,6 +656,25 @@ pub fn check(prog: &Program, ex: &Execution, cfg: &OracleCfg) -> OracleOut {
                     "wrong-parent",
                     format!("{:?} in trace {:032x}: parent id {:x}, expected {:x} ({:?})", r.name, e.trace_id, r.r.parent_id.0, want, e.parent),
                 );
+            }
+        } else {
+            // the expected parent's own record is not among the delivered ones, so its id is not
+            // known; the record must at least not hang under a *different* known span
+            let want_ent = match &e.parent {
+                PRef::S(l) => Some(Ent::S(*l)),
+                PRef::L(l) => Some(Ent::L(*l)),
+                PRef::Remote(_) => None,
+            };
+            if let (Some(we), Some(other)) = (want_ent, ent_of_id.get(&r.r.parent_id.0)) {
+                cn.parent_checks += 1;
+                if *other != we {
+                    v(
+                        &mut out,
+                        Cat::WrongParent,
+                        "wrong-parent",
+                        format!("{:?} in trace {:032x}: parent id {:x} is the id of {:?}, expected parent {:?} (whose own record was not delivered)", r.name, e.trace_id, r.r.parent_id.0, other, e.parent),
+                    );
+                }
             }
         }
     }
@@ -816,7 +836,7 @@ pub fn check(prog: &Program, ex: &Execution, cfg: &OracleCfg) -> OracleOut {
                         }
                         *flat += 1;
                     }
-                    Op::Reent { steps, .. } => {
+                    Op::Reent { steps, .. } | Op::Unwind { steps } => {
                         *flat += 1;
                         walk(steps, flat, ex, out);
                         *flat += 1;
@@ -1254,7 +1274,7 @@ fn check_copies(
     fn walk<'a>(ops: impl Iterator<Item = &'a Op>, flat: &mut usize, f: &mut dyn FnMut(usize, &'a Op)) {
         for op in ops {
             match op {
-                Op::ACall { steps, .. } | Op::Reent { steps, .. } => {
+                Op::ACall { steps, .. } | Op::Reent { steps, .. } | Op::Unwind { steps } => {
                     f(*flat, op);
                     *flat += 1;
                     walk(steps.iter(), flat, f);
@@ -1485,7 +1505,7 @@ fn find_elapsed_span(op: &Op, rel: usize) -> Option<u32> {
             });
         }
         *rel -= 1;
-        if let Op::ACall { steps, .. } | Op::Reent { steps, .. } = op {
+        if let Op::ACall { steps, .. } | Op::Reent { steps, .. } | Op::Unwind { steps } = op {
             for s in steps {
                 if let Some(x) = go(s, rel) {
                     return Some(x);
